@@ -23,12 +23,6 @@ impl Poly {
 
 
 
-pub assume_specification<const N: usize> [ bnum::BInt::<N>::is_negative ] (x: bnum::BInt<N>) -> (r: bool)
-    ensures r == (iv(x) < 0);
-/// |x| (bnum panics / wraps only for the minimum value)
-pub assume_specification<const N: usize> [ bnum::BInt::<N>::abs ] (x: bnum::BInt<N>) -> (r: bnum::BInt<N>)
-    requires iv(x) > -(pow_w(N as nat) as int) / 2
-    ensures iv(r) == (if iv(x) < 0 { -iv(x) } else { iv(x) });
 } // verus!
 
 verus! {
